@@ -8,9 +8,9 @@
 
 namespace Fastor {
 
-/* Turns a row-major tensor to column-major */
+/* Turns a column-major tensor to row-major */
 template<template<typename,size_t...> class TensorType, typename T, size_t ... Rest>
-FASTOR_INLINE Tensor<T,Rest...> tocolumnmajor(const TensorType<T,Rest...> &a) {
+FASTOR_INLINE Tensor<T,Rest...> torowmajor(const TensorType<T,Rest...> &a) {
     constexpr int Dimension = sizeof...(Rest);
     if (Dimension < 2) {
         return a;
@@ -66,9 +66,9 @@ FASTOR_INLINE Tensor<T,Rest...> tocolumnmajor(const TensorType<T,Rest...> &a) {
     }
 }
 
-/* Turns a column-major tensor to row-major */
+/* Turns a row-major tensor to column-major */
 template<template<typename,size_t...> class TensorType, typename T, size_t ... Rest>
-FASTOR_INLINE Tensor<T,Rest...> torowmajor(const TensorType<T,Rest...> &a) {
+FASTOR_INLINE Tensor<T,Rest...> tocolumnmajor(const TensorType<T,Rest...> &a) {
     constexpr int Dimension = sizeof...(Rest);
     if (Dimension < 2) {
         return a;
